@@ -19,7 +19,9 @@ import gc
 import hashlib
 import json
 import os
+import signal
 import sys
+import threading
 import time
 import traceback
 from collections import Counter
@@ -231,6 +233,19 @@ def short_tb(exc: BaseException, limit: int = 6) -> str:
 # ---------------------------------------------------------------------------
 
 
+class CaseTimeout(BaseException):
+    """raised by the per-case alarm inside a case that runs far longer than any case of the unchanged
+    tree (a BaseException, so that `except Exception` in the library cannot swallow it)."""
+
+
+def _case_limit_s(tier: str) -> float:
+    return float(os.environ.get("VERIF_CASE_TIMEOUT_S", "") or (300 if tier == "thorough" else 120))
+
+
+def _on_alarm(signum, frame):  # noqa: ANN001, ARG001
+    raise CaseTimeout()
+
+
 class CaseRunner:
     def __init__(self, ctx: Ctx, module: Any, stats: Stats) -> None:
         self.ctx = ctx
@@ -251,9 +266,20 @@ class CaseRunner:
         apply_case_config(data)
         if count:
             self.history.append(data)
+        armed = False
+        if threading.current_thread() is threading.main_thread():
+            signal.signal(signal.SIGALRM, _on_alarm)
+            signal.setitimer(signal.ITIMER_REAL, _case_limit_s(self.ctx.tier))
+            armed = True
         try:
             part.check(data, lab)
             lab.tag_if(isinstance(data, dict) and bool(data.get("trace")), "trace-logging")
+        except CaseTimeout:
+            # a time budget hit is inconclusive, never a violation: the case is dropped (and counted),
+            # the search goes on, so that a code change that makes one operation spin cannot keep the
+            # check from reporting what its other cases find
+            self.stats.labels[f"{part.name}:CASE-TIMEOUT"] += 1
+            return
         except Violation as v:
             if v.override is not None:
                 self.no_shrink = True
@@ -277,6 +303,8 @@ class CaseRunner:
                 raise Violation("unexpected-exception", short_tb(e)) from None
             raise HarnessError(f"{part.name}: {short_tb(e, 10)}") from e
         finally:
+            if armed:
+                signal.setitimer(signal.ITIMER_REAL, 0)
             gc_every(self)
         if count:
             self._count(part, data, lab)
